@@ -92,6 +92,9 @@ func (g *Gen) frameObls(st *State, pos token.Pos) {
 		if g.shared()[c] {
 			continue // shared components change under interference; this goroutine's writes are governed by guar
 		}
+		if g.m.specs.History[c] {
+			continue // write-only ghost history
+		}
 		cur, init := st.heap[c], g.heapGet(g.entry, c)
 		if cur == init {
 			continue
